@@ -29,6 +29,8 @@ const PROP: &str = "C11";
 const MAX_INPUT_BYTES: usize = 12_000;
 const HANG_FIRST: Duration = Duration::from_secs(20);
 const HANG_CONFIRM: Duration = Duration::from_secs(60);
+/// after this many hang candidates in one batch no more work is handed out (each one is a spinning thread)
+const MAX_ABANDONED: usize = 3;
 
 // ------------------------------------------------------------------------------------------------------------
 // worker pool with a hang watchdog
@@ -104,8 +106,13 @@ fn run_pool(cases: Vec<String>, workers: usize) -> (Vec<Option<Report>>, Vec<(us
             }
         }
         for _ in 0..respawn {
-            slots.push(spawn_worker(&pool));
-            busy = true;
+            if hangs.len() >= MAX_ABANDONED {
+                // every abandoned thread keeps spinning: stop handing out work, the candidates found so far decide
+                pool.next.store(usize::MAX / 2, Ordering::SeqCst);
+            } else {
+                slots.push(spawn_worker(&pool));
+                busy = true;
+            }
         }
         if !busy {
             break;
@@ -148,11 +155,17 @@ struct Run<'a> {
     /// inputs kept for the CLI leg: (class, text, in-process panic locations)
     cli_sample: Vec<(String, String, Vec<String>)>,
     cli_per_class: usize,
+    hang_candidates: usize,
 }
 
 impl<'a> Run<'a> {
     /// Evaluate a batch: skip out-of-domain inputs, run the rest on the pool, account, report.
     fn batch(&mut self, inputs: Vec<(&'static str, String)>) {
+        if self.hang_candidates >= 2 * MAX_ABANDONED {
+            // the process already carries that many spinning threads; the reported hang decides the run
+            self.ev.add("cases_not_run_after_hang_candidates", inputs.len() as u64);
+            return;
+        }
         let mut classes = Vec::new();
         let mut texts = Vec::new();
         for (class, t) in inputs {
@@ -172,8 +185,21 @@ impl<'a> Run<'a> {
             let Some(rep) = r else { continue };
             self.account(classes[i], &texts[i], rep);
         }
+        let not_run = results.iter().filter(|r| r.is_none()).count().saturating_sub(hangs.len());
+        if not_run > 0 {
+            self.ev.add("cases_not_run_after_hang_candidates", not_run as u64);
+        }
+        if !hangs.is_empty() {
+            self.hang_candidates += hangs.len();
+        }
         for (i, stage) in hangs {
             let text = &texts[i];
+            let first = format!("hang:{}", STAGES[(stage as usize).min(STAGES.len() - 1)]);
+            if self.out.seen(&first) || self.allow.contains(&first) {
+                // one confirmation per stage: every further one costs a minute and another spinning thread
+                self.ev.add("hang_candidates_not_reconfirmed", 1);
+                continue;
+            }
             match run_alone(text, HANG_CONFIRM) {
                 Ok(rep) => {
                     self.ev.add("slow_cases_over_20s_that_returned_when_rerun", 1);
@@ -222,7 +248,7 @@ impl<'a> Run<'a> {
             *self.diag_hist.entry(s).or_insert(0) += 1;
         }
         let q = self.sample_quota.entry(class).or_insert(0);
-        if *q < 1 && self.ev.want_sample() && fresh && rep.nontrivial() && text.len() < 600 && self.seen_inputs.len() % 7 == 3 {
+        if *q < 1 && self.ev.want_sample() && fresh && rep.nontrivial() && text.len() < 400 && text.len() > 20 && (class != "prefix" || text.len() > 150) {
             *q += 1;
             self.ev.sample(json!({"class": class, "input": text, "furthest_stage": furthest, "diagnostics": rep.diagnostics}));
         }
@@ -472,10 +498,11 @@ fn main() {
         sample_quota: BTreeMap::new(),
         cli_sample: Vec::new(),
         cli_per_class: args.tier.pick(1, 20),
+        hang_candidates: 0,
     };
 
     // ---- leg A: every char-boundary prefix of a fixed set of seeds (exhaustive within each file)
-    let n_prefix_seeds = args.tier.pick(15usize, usize::MAX);
+    let n_prefix_seeds = args.tier.pick(12usize, usize::MAX);
     let mut order: Vec<usize> = (0..seeds.len()).filter(|&i| seeds[i].1.len() <= args.tier.pick(2_600, MAX_INPUT_BYTES)).collect();
     order.sort_by_key(|&i| util::hash_str(&seeds[i].0));
     order.truncate(n_prefix_seeds);
@@ -498,7 +525,7 @@ fn main() {
     }
 
     // ---- leg B: mutations
-    let n_mut = args.flag("mutations").and_then(|v| v.parse().ok()).unwrap_or(args.tier.pick(40_000usize, 3_000_000usize));
+    let n_mut = args.flag("mutations").and_then(|v| v.parse().ok()).unwrap_or(args.tier.pick(30_000usize, 2_000_000usize));
     let strat = (any::<u16>(), 0u8..14, any::<[u16; 6]>());
     let mut runner = vcore::gen::runner(args.subseed(111));
     let mut done = 0usize;
